@@ -269,29 +269,34 @@ pub fn generate(seed: u64, tier: &str, out: &mut dyn std::io::Write) {
             d[4] = 1 + (r.below(3) as u8);
             d[5] = 1 + (r.below(3) as u8);
         }
+        crate::rng::progress(&format!("r{}-{}", seed, i));
         let (b, s) = run_slice(&d);
         writeln!(out, "C14 r{}-{} kind=slice data={} buildid={} soname={}", seed, i, hex(&d), b, s).unwrap();
     }
     for i in 0..ncorr {
         let mut r = Rng::for_case(seed, 1014, i);
         let d = corrupted(&mut r);
+        crate::rng::progress(&format!("c{}-{}", seed, i));
         let (b, s) = run_slice(&d);
         writeln!(out, "C14 c{}-{} kind=slice data={} buildid={} soname={}", seed, i, hex(&d), b, s).unwrap();
     }
     // well-formed images built from a specification: the right answers are known by construction
     let nwf = if tier == "thorough" { 30000 } else { 3000 };
     for i in 0..nwf {
+        crate::rng::progress(&format!("w{}-{}", seed, i));
         writeln!(out, "{}", wellformed_case(seed, i)).unwrap();
     }
     // the same generated images, loaded by a live target and read from its memory (process mode), next to
     // the answers from the file
     let nproc = if tier == "thorough" { 400 } else { 40 };
     for i in 0..nproc {
+        crate::rng::progress(&format!("p{}-{}", seed, i));
         proc_case(seed, i, out);
     }
     let mut r = Rng::for_case(seed, 2014, 0);
     for (i, p) in installed_elfs(nfiles, &mut r).iter().enumerate() {
         let data = match std::fs::read(p) { Ok(d) => d, Err(_) => continue };
+        crate::rng::progress(&format!("f{}-{}", seed, i));
         let (b, s) = run_slice(&data);
         let (rb, rs) = readelf_ref(p);
         writeln!(out, "C14 f{}-{} kind=file file=@{} buildid={} soname={} ref_buildid={} ref_soname={}", seed, i, p, b, s, rb, rs).unwrap();
